@@ -44,6 +44,7 @@ class Abstractor:
         self.var = var
         self.cls = cls
         self.events = []
+        self.tainted = set()   # local names bound DIRECTLY to the result of a call on the tree (possibly a lazy generator)
 
     def is_tree(self, node):
         return isinstance(node, ast.Name) and node.id == self.var
@@ -104,6 +105,9 @@ class Abstractor:
             self._expr(node.value)
             return
         if isinstance(node, ast.Name):
+            if node.id in self.tainted and isinstance(node.ctx, ast.Load):
+                # consuming a (possibly lazy) result of a tree call walks the tree at this point
+                self.events.append(("read", f"use of {node.id} (result of a tree call)"))
             return
         for child in ast.iter_child_nodes(node):
             if isinstance(child, ast.expr):
@@ -160,6 +164,17 @@ class Abstractor:
             for child in ast.iter_child_nodes(s):
                 if isinstance(child, ast.expr):
                     self._expr(child)
+            if isinstance(s, ast.Assign) and isinstance(s.value, ast.Call):
+                f = s.value.func
+                direct = (isinstance(f, ast.Attribute) and self.is_tree(f.value)) or (
+                    isinstance(f, ast.Name) and f.id == "iter" and s.value.args and self.is_tree(s.value.args[0]))
+                for t in s.targets:
+                    if isinstance(t, ast.Name):
+                        (self.tainted.add if direct else self.tainted.discard)(t.id)
+            elif isinstance(s, ast.Assign) and isinstance(s.value, ast.GeneratorExp):
+                for t in s.targets:
+                    if isinstance(t, ast.Name):
+                        self.tainted.add(t.id)
 
 
 def lock_kind(tree_mod):
